@@ -732,8 +732,8 @@ func runAlone(s *scenario, path string, obs []*observation, i int) bool {
 	b0 := stats.RtspConns.GetSample().Active
 	g0, _ := pullGoroutines()
 	o := runScenario(s, path)
-	c1 := waitFor(4*time.Second, func() bool { return stats.RtspConns.GetSample().Active == b0 })
-	g1 := waitFor(4*time.Second, func() bool { n, _ := pullGoroutines(); return n <= g0 })
+	c1 := waitFor(3*time.Second, func() bool { return stats.RtspConns.GetSample().Active == b0 })
+	g1 := waitFor(3*time.Second, func() bool { n, _ := pullGoroutines(); return n <= g0 })
 	if !c1 {
 		o.notes = append(o.notes, "leak:conncount")
 	}
@@ -796,8 +796,8 @@ func runC20(c *Ctx) {
 	}
 	if len(again) > 0 {
 		c.CountN("first-run-disagreements-rechecked", len(again))
-		if len(again) > 40 {
-			again = again[:40]
+		if len(again) > 12 {
+			again = again[:12]
 		}
 		setPhase(6 * time.Second)
 		var l2 []string
@@ -809,7 +809,7 @@ func runC20(c *Ctx) {
 		for k, i := range again {
 			lines[i], outs[i] = l2[k], o2[k]
 		}
-		// the ones beyond the first 40 keep their first observation (they are reported if they failed)
+		// the ones beyond the first 12 keep their first observation (they are reported if they failed)
 	}
 	for i := 0; i < nDual; i++ {
 		m := KV(outs[len(scs)+i])
